@@ -12,6 +12,8 @@ import (
 	"io"
 	"log"
 	"os"
+	"runtime/debug"
+	"runtime/pprof"
 	"strings"
 
 	"github.com/akrylysov/pogreb"
@@ -32,6 +34,14 @@ func main() {
 	flag.Parse()
 
 	pogreb.SetLogger(log.New(io.Discard, "", 0))
+	// every recovering Open allocates the 512 KiB segment table: collect less often
+	debug.SetGCPercent(800)
+	if p := os.Getenv("VERIF_CPUPROFILE"); p != "" {
+		if f, err := os.Create(p); err == nil {
+			_ = pprof.StartCPUProfile(f)
+			defer pprof.StopCPUProfile()
+		}
+	}
 
 	var w *bufio.Writer
 	if *out == "-" {
